@@ -80,6 +80,9 @@ InvOnlyKept == \A k \in 1..Len(out) : out[k][1] \in Keep                    \* d
 InvWindow == Cardinality(inflight \cup ready) <= W
 InvChunks ==
     /\ Flatten(chunks) \o buf = out
-    /\ \A k \in 1..Len(chunks) : Len(chunks[k]) = B \/ (k = Len(chunks) /\ Finished /\ Len(chunks[k]) <= B /\ Len(chunks[k]) > 0)
+    \* chunk size B; B = 0 (a degenerate but accepted argument) hands every item over on its own
+    /\ \A k \in 1..Len(chunks) :
+          IF B = 0 THEN Len(chunks[k]) = 1
+          ELSE Len(chunks[k]) = B \/ (k = Len(chunks) /\ Finished /\ Len(chunks[k]) <= B /\ Len(chunks[k]) > 0)
 TermComplete == (Finished /\ buf = <<>>) => {out[k][1] : k \in 1..Len(out)} = Keep   \* nothing lost
 =============================================================================
